@@ -111,7 +111,7 @@ static bool parseStep(const std::vector<std::string> &t, int lineNo, Step &st, s
         else if (e == "eof") st.ex = EX_EOF; else if (e == "line") st.ex = EX_LINE; else if (e == "chunked") st.ex = EX_CHUNKED;
         else if (e == "icap") st.ex = EX_ICAP; else if (e == "any") st.ex = EX_ANY;
         else { err = "line " + std::to_string(lineNo) + ": bad expect " + e; return false; }
-        for (; i < t.size(); ++i) if (t[i] == "timeout" && i + 1 < t.size()) st.timeoutUs = U(t[++i]);
+        for (; i < t.size(); ++i) { if (t[i] == "timeout" && i + 1 < t.size()) st.timeoutUs = U(t[++i]); else if (t[i] == "soft") st.soft = true; }
     }
     else if (k == "await") { if (!need(2)) return false; st.kind = ST_AWAIT; st.flag = t[1]; for (size_t i = 2; i < t.size(); ++i) if (t[i] == "timeout" && i + 1 < t.size()) st.timeoutUs = U(t[++i]); }
     else if (k == "label") { if (!need(2)) return false; st.kind = ST_LABEL; st.flag = t[1]; }
